@@ -2,12 +2,24 @@ import SlVerif.Model.Basic
 import SlVerif.Model.Relay
 /-
   C17 model: crates/sl-mpc-mate/src/coord/buffered.rs  (BufferedMsgRelay::{wait_for, recv}, Stream::poll_next)
-  over an arbitrary underlying relay, represented by the script of results its `poll_next` will produce.
+  over an arbitrary underlying relay, represented by
+    * the script of results its `Stream::poll_next` will produce (`script`),
+    * the script of results its `Sink::poll_ready` / `Sink::poll_flush` calls will produce (`sink`, one entry per call,
+      whichever of the two is called; an exhausted script behaves as `Ready(Ok(()))` for ever),
+    * the script of results of its `Sink::start_send` calls (`sends`; exhausted = `Ok(())`).
 
   The async fns are modelled at the level of `Future::poll`: one `poll*` function = one call of `poll`, returning
   `ready v` or `pending` together with the suspended phase; dropping the future between two polls (cancellation) is
   "never poll that phase again".  `in_buf: Vec<Vec<u8>>` is a list; `push` appends, `pop` takes the last,
   `swap_remove(i)` moves the last element into position i.
+
+  Order of effects, as in the Rust:
+    wait_for:  scan `in_buf` (a hit returns at once and never touches the sink)  →  `self.relay.flush().await.ok()?`
+               (futures-util `Flush::poll` = one `poll_flush` per poll; `Pending` suspends there and a re-poll resumes
+               there, WITHOUT a new buffer scan; `Err` makes wait_for return `None`)  →  the pull loop.
+    recv:      `self.relay.ask(id, ttl).await.ok()?` (= `feed(AskMsg)`; futures-util `Feed::poll` = `poll_ready`, and
+               when that is `Ready(Ok)`, `start_send(item)`; no flush; `Pending` suspends in `poll_ready` and the item
+               is kept; an `Err` of either makes recv return `None`)  →  `wait_for(|m| m == id)`.
 -/
 namespace SlVerif.Buffered
 open SlVerif.Relay (decodeHdr? Id MESSAGE_HEADER_SIZE)
@@ -19,11 +31,22 @@ inductive Ev where
   | closed              -- Poll::Ready(None)
 deriving DecidableEq, Repr
 
+/-- what the underlying relay's `poll_ready` / `poll_flush` returns next -/
+inductive SinkEv where
+  | ok                  -- Poll::Ready(Ok(()))
+  | pending             -- Poll::Pending
+  | err                 -- Poll::Ready(Err(MessageSendError))
+deriving DecidableEq, Repr
+
 structure State where
   buf : List Bytes := []
   script : List Ev := []
-  /-- ASK frames fed into the underlying sink, in order -/
+  /-- ASK frames accepted by the underlying sink (`start_send` returned Ok), in order -/
   asks : List (Id × Nat) := []
+  /-- results of the coming `poll_ready` / `poll_flush` calls of the underlying sink, in call order -/
+  sink : List SinkEv := []
+  /-- results of the coming `start_send` calls of the underlying sink (`true` = Ok), in call order -/
+  sends : List Bool := []
 deriving DecidableEq, Repr
 
 inductive Poll (α : Type) where
@@ -38,6 +61,19 @@ def pollUnder (s : State) : State × Poll (Option Bytes) :=
   | .msg b :: rest => ({ s with script := rest }, .ready (some b))
   | .pending :: rest => ({ s with script := rest }, .pending)
   | .closed :: rest => ({ s with script := rest }, .ready none)
+
+/-- underlying `relay.poll_ready` / `relay.poll_flush`: consumes one sink-script entry; exhausted = `Ready(Ok)` -/
+def pollSink (s : State) : State × SinkEv :=
+  match s.sink with
+  | [] => (s, .ok)
+  | e :: rest => ({ s with sink := rest }, e)
+
+/-- underlying `relay.start_send(ASK frame)`: consumes one `sends` entry (exhausted = Ok); an accepted ASK is recorded -/
+def startSend (a : Id × Nat) (s : State) : State × Bool :=
+  match s.sends with
+  | [] => ({ s with asks := s.asks ++ [a] }, true)
+  | true :: rest => ({ s with sends := rest, asks := s.asks ++ [a] }, true)
+  | false :: rest => ({ s with sends := rest }, false)
 
 /-- `Vec::swap_remove(i)` -/
 def swapRemove (l : List Bytes) (i : Nat) : List Bytes :=
@@ -74,34 +110,56 @@ def pullLoop (pred : Id → Bool) : Nat → State → State × Poll (Option Byte
 /-- phases of the `wait_for` future -/
 inductive Phase where
   | start       -- not polled yet: scan the buffer first
+  | flushing    -- suspended inside `self.relay.flush().await` (no buffered frame matched)
   | pulling     -- suspended inside `self.relay.next().await`
 deriving DecidableEq, Repr
 
-/-- one `poll` of the `wait_for(pred)` future (the mock relay's flush is always ready) -/
-def pollWaitFor (pred : Id → Bool) (ph : Phase) (s : State) : State × Poll (Option Bytes) :=
+/-- `self.relay.flush().await.ok()?` followed by the pull loop, within one poll: one `poll_flush`;
+    `Pending` suspends in the flush, `Err` returns `None`, `Ok` goes on to the pull loop -/
+def pollFlush (pred : Id → Bool) (s : State) : State × Poll (Option Bytes) × Phase :=
+  match pollSink s with
+  | (s', .pending) => (s', .pending, .flushing)
+  | (s', .err) => (s', .ready none, .flushing)
+  | (s', .ok) =>
+      let (s'', r) := pullLoop pred (s'.script.length + 1) s'
+      (s'', r, .pulling)
+
+/-- one `poll` of the `wait_for(pred)` future; the third component is the phase the future is suspended in when the
+    result is `pending` -/
+def pollWaitFor (pred : Id → Bool) (ph : Phase) (s : State) : State × Poll (Option Bytes) × Phase :=
   match ph with
   | .start =>
       match findIdx pred s.buf 0 with
-      | some i => ({ s with buf := swapRemove s.buf i }, .ready (s.buf[i]?))
-      | none => pullLoop pred (s.script.length + 1) s
-  | .pulling => pullLoop pred (s.script.length + 1) s
+      | some i => ({ s with buf := swapRemove s.buf i }, .ready (s.buf[i]?), .start)   -- the sink is not touched
+      | none => pollFlush pred s
+  | .flushing => pollFlush pred s
+  | .pulling =>
+      let (s', r) := pullLoop pred (s.script.length + 1) s
+      (s', r, .pulling)
 
 /-- phases of the `recv(id, ttl)` future -/
 inductive RPhase where
-  | start                 -- not polled yet: feed the ASK, then wait_for
-  | waiting (ph : Phase)
+  | feeding               -- not polled yet, or suspended in `poll_ready` of the `Feed` (the ASK item is kept):
+                          -- both continue with `poll_ready`
+  | waiting (ph : Phase)  -- the ASK was accepted; inside `wait_for`
 deriving DecidableEq, Repr
 
-/-- one `poll` of the `recv(id, ttl)` future (the mock sink is always ready and never fails) -/
+/-- one `poll` of the `recv(id, ttl)` future -/
 def pollRecv (id : Id) (ttl : Nat) (ph : RPhase) (s : State) : State × Poll (Option Bytes) × RPhase :=
   match ph with
-  | .start =>
-      let s := { s with asks := s.asks ++ [(id, ttl)] }
-      let (s', r) := pollWaitFor (fun x => x == id) .start s
-      (s', r, .waiting .pulling)
+  | .feeding =>
+      match pollSink s with                                   -- Feed::poll: ready!(poll_ready)?
+      | (s₁, .pending) => (s₁, .pending, .feeding)
+      | (s₁, .err) => (s₁, .ready none, .feeding)             -- `.ok()?`
+      | (s₁, .ok) =>
+          match startSend (id, ttl) s₁ with                   -- start_send(item)?
+          | (s₂, false) => (s₂, .ready none, .feeding)        -- `.ok()?`
+          | (s₂, true) =>
+              let (s₃, r, p) := pollWaitFor (fun x => x == id) .start s₂
+              (s₃, r, .waiting p)
   | .waiting p =>
-      let (s', r) := pollWaitFor (fun x => x == id) p s
-      (s', r, .waiting .pulling)
+      let (s', r, p') := pollWaitFor (fun x => x == id) p s
+      (s', r, .waiting p')
 
 /-- `Stream::poll_next` of the wrapper -/
 def pollNext (s : State) : State × Poll (Option Bytes) :=
@@ -127,9 +185,9 @@ def runWaitFor (pred : Id → Bool) : Nat → Phase → State → State × Outco
   | 0, _, s => (s, .cancelled)
   | k+1, ph, s =>
       match pollWaitFor pred ph s with
-      | (s', .ready (some m)) => (s', .got m)
-      | (s', .ready none) => (s', .none_)
-      | (s', .pending) => runWaitFor pred k .pulling s'
+      | (s', .ready (some m), _) => (s', .got m)
+      | (s', .ready none, _) => (s', .none_)
+      | (s', .pending, ph') => runWaitFor pred k ph' s'
 
 def runRecv (id : Id) (ttl : Nat) : Nat → RPhase → State → State × Outcome
   | 0, _, s => (s, .cancelled)
@@ -140,7 +198,7 @@ def runRecv (id : Id) (ttl : Nat) : Nat → RPhase → State → State × Outcom
       | (s', .pending, ph') => runRecv id ttl k ph' s'
 
 def call (s : State) : Call → State × Outcome
-  | .recv id ttl polls => runRecv id ttl polls .start s
+  | .recv id ttl polls => runRecv id ttl polls .feeding s
   | .waitFor ids polls => runWaitFor (fun x => ids.contains x) polls .start s
   | .next =>
       match pollNext s with
